@@ -552,7 +552,7 @@ static void gen(Emitter &em, const Options &opt) {
 
     // (7) seeded random long histories
     {
-        int nrand = thorough ? 60000 : 3000;
+        int nrand = thorough ? 100000 : 20000;
         for (int i = 0; i < nrand; ++i) {
             G g; std::string ops;
             for (int j = 0; j < 30; ++j) join(ops, rand_op(rng, g));
